@@ -649,6 +649,13 @@ func Run(r *fw.Run) {
 		x.AddStates(int64(st.States))
 		x.AddTransitions(st.Transitions)
 		r.Direct(fmt.Sprintf("bfs-seed%d", si), -1, x)
+		// the distinct answer vectors (all queries, verdict and error-ness) seen in the states of this seed
+		for oc := range outcomes {
+			y := r.NewRec()
+			y.Outcome(oc)
+			y.Nontrivial(oc)
+			r.Direct(fmt.Sprintf("bfs-seed%d", si), -2, y)
+		}
 		stats = append(stats, st)
 		r.AddScope(&fw.ScopeStat{Name: fmt.Sprintf("bfs-seed%d", si), Mode: "explicit-state BFS", Leaves: st.Transitions, Complete: complete, Outcomes: len(outcomes), Nontrivial: st.States,
 			WallS: time.Since(t0).Seconds(), Note: fmt.Sprintf("states=%d depth=%d fixpoint=%v levels=%v", st.States, st.Depth, st.Fixpoint, st.LevelSizes)})
